@@ -24,9 +24,20 @@ def build_homes():
     Hpub.set_ownertrust(a, 6)
     Hpub.set_ownertrust(b, 6)
     # a home whose default key is B while A exists too is not needed: default = first secret key (A)
+    # secret keys that exist but cannot be used: passphrase-protected, no pinentry in batch mode.  gpg then
+    # selects the key, writes the cleartext part and fails at the signature (non-empty output, exit 2)
+    Hlock = gpgenv.Home()
+    la = Hlock.genkey('Locked A <la@example.com>', passphrase='secret')
+    lb = Hlock.genkey('Locked B <lb@example.com>', passphrase='secret')
+    Hlock.import_key(pubs)
+    for k in (a, b, la, lb):
+        Hlock.set_ownertrust(k, 6)
+    with open(os.path.join(Hlock.path, 'gpg-agent.conf'), 'w') as f:
+        f.write('pinentry-program /bin/false\n')
     H.kill()
     Hpub.kill()
-    return {'H': H, 'Hpub': Hpub, 'a': a, 'b': b, 'pubs': pubs}
+    Hlock.kill()
+    return {'H': H, 'Hpub': Hpub, 'Hlock': Hlock, 'a': a, 'b': b, 'la': la, 'lb': lb, 'pubs': pubs}
 
 
 def abs_entries_from_objs(ents):
@@ -60,7 +71,8 @@ def one_case(args):
     rng = random.Random('sign-%d-%s' % (seed, sorted(case.items())))
     root = tlc.scratch_dir('vs')
     old_home = os.environ.get('GNUPGHOME')
-    signer = gpgenv.Home(homes['H']).clone() if case['key_usable'] else gpgenv.Home(homes['Hpub']).clone()
+    locked = case['key_usable'] == 'locked'
+    signer = gpgenv.Home(homes['Hlock' if locked else 'H' if case['key_usable'] else 'Hpub']).clone()
     full = gpgenv.Home(homes['H']).clone()          # for preparing the initially signed top-level file
     verifier = gpgenv.Home(homes['Hpub']).clone()
     try:
@@ -105,7 +117,7 @@ def one_case(args):
             kw['sign_openpgp'] = (case['signopt'] == 'on')
         want_key = homes['a']
         if case['keyid'] == 'explicit_b':
-            kw['openpgp_keyid'] = homes['b']
+            kw['openpgp_keyid'] = homes['lb' if locked else 'b']
             want_key = homes['b']
         elif case['keyid'] == 'missing':
             kw['openpgp_keyid'] = 'nobody@example.com'
@@ -161,7 +173,7 @@ def one_case(args):
                     if ls and ls[-1] == '':
                         ls.pop()
                     subs.append({'classes': [drv_framing.classify_line(l) for l in ls]})
-        usable = case['key_usable'] and case['keyid'] != 'missing'
+        usable = case['key_usable'] is True and case['keyid'] != 'missing'
         return [{'signopt': case['signopt'], 'was_signed': case['was_signed'], 'key_usable': usable,
                  'explicit_key': case['keyid'] != 'default', 'end': obs['end'], 'exc': obs['exc'],
                  'top': top, 'subs': subs, 'meta': dict(case)}]
@@ -180,7 +192,7 @@ def all_cases(rng, thorough):
     for signopt in ('unset', 'on', 'off'):
         for was_signed in (False, True):
             for keyid in ('default', 'explicit_b', 'missing'):
-                for key_usable in (True, False):
+                for key_usable in (True, False, 'locked'):
                     for rename_top in (False, True):
                         for subcomp in (('plain', 'gz', 'xz') if thorough else (rng.choice(['plain', 'gz', 'bz2', 'xz']),)):
                             for hostile in ((False, True) if thorough else (rng.random() < 0.5,)):
